@@ -78,10 +78,6 @@ class CSVTracksBuilder(TracksBuilder):
             else source.copy()  # Make a copy to avoid modifying original
         )
 
-        # Validate that 'id' column contains unique values
-        if "id" in df.columns and not df["id"].is_unique:
-            raise ValueError("The 'id' column must contain unique values")
-
 
         # For backward compatibility, extend node_name_map with node_features
         # Only add features that should be loaded (recompute=False)
@@ -99,6 +95,10 @@ class CSVTracksBuilder(TracksBuilder):
             if source_col in df.columns and target_key not in new_df_data:
                 new_df_data[target_key] = df[source_col].copy()
         df = pd.DataFrame(new_df_data)
+
+        # Validate that the id column contains unique values
+        if "id" in df.columns and not df["id"].is_unique:
+            raise ValueError("The 'id' column must contain unique values")
 
         # Ensure integer IDs (convert string IDs to integers if needed)
         if "id" in df.columns and "parent_id" in df.columns:
